@@ -43,6 +43,7 @@ Lemma is_blank_app x y : is_blank (x ++ y) = is_blank x && is_blank y.
 Proof. rewrite !is_blank_forallb. apply forallb_app. Qed.
 
 Section Compose.
+  Variable acc : N -> N -> str.
   Variable o : opts.
 
   (** the item in front of what follows the list [a] (itself following [pk]) *)
@@ -57,15 +58,15 @@ Section Compose.
   Lemma glue_none sl k : glue sl None k = [].
   Proof. reflexivity. Qed.
 
-  Lemma render_single sl k : render o sl [k] = render1 o sl k.
+  Lemma render_single sl k : render acc o sl [k] = render1 acc o sl k.
   Proof. unfold render. cbn [render_from]. now rewrite glue_none, app_nil_r. Qed.
 
   Lemma render_from_glue sl pk l :
-    render_from o sl pk l = match l with [] => [] | k :: _ => glue sl pk k end ++ render o sl l.
+    render_from acc o sl pk l = match l with [] => [] | k :: _ => glue sl pk k end ++ render acc o sl l.
   Proof. destruct l as [|k r]; [reflexivity|]. unfold render. cbn [render_from]. now rewrite glue_none. Qed.
 
   Lemma render_from_app sl pk a b :
-    render_from o sl pk (a ++ b) = render_from o sl pk a ++ render_from o sl (last_item pk a) b.
+    render_from acc o sl pk (a ++ b) = render_from acc o sl pk a ++ render_from acc o sl (last_item pk a) b.
   Proof.
     revert pk. induction a as [|k r IH]; intros pk; cbn [app render_from last_item]; [reflexivity|].
     now rewrite IH, !app_assoc.
@@ -77,8 +78,8 @@ Section Compose.
 
   (** THE compositionality law *)
   Theorem render_app sl a b :
-    render o sl (a ++ b) = render o sl a ++ junction sl a b ++ render o sl b.
-  Proof. unfold render at 1. rewrite render_from_app. fold (render o sl a). now rewrite render_from_glue. Qed.
+    render acc o sl (a ++ b) = render acc o sl a ++ junction sl a b ++ render acc o sl b.
+  Proof. unfold render at 1. rewrite render_from_app. fold (render acc o sl a). now rewrite render_from_glue. Qed.
 
   (** ... and exactly when the junction is empty *)
   Definition ends_with_spaced_symbol (a : list core) : bool :=
@@ -100,12 +101,12 @@ Section Compose.
 
   Theorem render_app_free sl a b :
     s_bmc sl = true \/ ends_with_spaced_symbol a = false \/ starts_with_text b = false ->
-    render o sl (a ++ b) = render o sl a ++ render o sl b.
+    render acc o sl (a ++ b) = render acc o sl a ++ render acc o sl b.
   Proof. intros H. apply junction_nil_iff in H. now rewrite render_app, H. Qed.
 
   Theorem render_app_not_free sl a b :
     s_bmc sl = false -> ends_with_spaced_symbol a = true -> starts_with_text b = true ->
-    render o sl (a ++ b) <> render o sl a ++ render o sl b.
+    render acc o sl (a ++ b) <> render acc o sl a ++ render acc o sl b.
   Proof.
     intros H1 H2 H3 E. rewrite render_app in E. apply app_inv_head in E.
     assert (J : junction sl a b = []).
@@ -117,7 +118,7 @@ Section Compose.
   (** an item that neither is text nor a bare symbol macro separates its neighbours completely *)
   Theorem render_around sl a k b :
     is_text k = false -> bare_post (Some k) = None ->
-    render o sl (a ++ [k] ++ b) = render o sl a ++ render1 o sl k ++ render o sl b.
+    render acc o sl (a ++ [k] ++ b) = render acc o sl a ++ render1 acc o sl k ++ render acc o sl b.
   Proof.
     intros Hk1 Hk2. rewrite render_app. rewrite (render_app sl [k] b).
     assert (J1 : junction sl a ([k] ++ b) = []).
@@ -130,13 +131,13 @@ Section Compose.
 
   (** blocks joined by a paragraph break: no side condition at all *)
   Theorem compositional_par sl a b :
-    render o sl (a ++ [KPar] ++ b) = render o sl a ++ [10; 10]%N ++ render o sl b.
+    render acc o sl (a ++ [KPar] ++ b) = render acc o sl a ++ [10; 10]%N ++ render acc o sl b.
   Proof. now rewrite render_around. Qed.
 
   (** * Whitespace next to text is part of the character node *)
   Definition text_kept (sl : sls) (t : str) : Prop := s_blc sl = true \/ is_blank t = false.
 
-  Lemma render1_text_kept sl t : text_kept sl t -> render1 o sl (KText t) = t.
+  Lemma render1_text_kept sl t : text_kept sl t -> render1 acc o sl (KText t) = t.
   Proof. intros [H|H]; cbn [render1]; rewrite H; [reflexivity|]. now rewrite andb_false_r. Qed.
   Lemma text_kept_app_r sl t w : text_kept sl t -> text_kept sl (t ++ w).
   Proof. intros [H|H]; [now left|right]. now rewrite is_blank_app, H. Qed.
@@ -144,12 +145,12 @@ Section Compose.
   Proof. intros [H|H]; [now left|right]. now rewrite is_blank_app, H, andb_false_r. Qed.
 
   Lemma render_snoc_text sl a t :
-    render o sl (a ++ [KText t]) = render o sl a ++ junction sl a [KText t] ++ render1 o sl (KText t).
+    render acc o sl (a ++ [KText t]) = render acc o sl a ++ junction sl a [KText t] ++ render1 acc o sl (KText t).
   Proof. now rewrite render_app, render_single. Qed.
 
   (** trailing whitespace of the last text of a block *)
   Theorem render_text_end sl a0 t w :
-    text_kept sl t -> render o sl (a0 ++ [KText (t ++ w)]) = render o sl (a0 ++ [KText t]) ++ w.
+    text_kept sl t -> render acc o sl (a0 ++ [KText (t ++ w)]) = render acc o sl (a0 ++ [KText t]) ++ w.
   Proof.
     intros H. rewrite !render_snoc_text.
     rewrite (render1_text_kept sl (t ++ w)) by now apply text_kept_app_r.
@@ -158,7 +159,7 @@ Section Compose.
   Qed.
 
   Lemma render_cons_text sl t b0 :
-    render o sl (KText t :: b0) = render1 o sl (KText t) ++ render o sl b0.
+    render acc o sl (KText t :: b0) = render1 acc o sl (KText t) ++ render acc o sl b0.
   Proof.
     change (KText t :: b0) with ([KText t] ++ b0). rewrite render_app.
     assert (J : junction sl [KText t] b0 = []).
@@ -168,7 +169,7 @@ Section Compose.
 
   (** leading whitespace of the first text of a block *)
   Theorem render_text_start sl w u b0 :
-    text_kept sl u -> render o sl (KText (w ++ u) :: b0) = w ++ render o sl (KText u :: b0).
+    text_kept sl u -> render acc o sl (KText (w ++ u) :: b0) = w ++ render acc o sl (KText u :: b0).
   Proof.
     intros H. rewrite !render_cons_text.
     rewrite (render1_text_kept sl (w ++ u)) by now apply text_kept_app_l.
@@ -180,8 +181,8 @@ Section Compose.
       the three runs are ONE character node *)
   Theorem compositional_space sl a0 t ws u b0 :
     text_kept sl t -> text_kept sl u ->
-    render o sl (a0 ++ [KText (t ++ ws ++ u)] ++ b0)
-    = render o sl (a0 ++ [KText t]) ++ ws ++ render o sl (KText u :: b0).
+    render acc o sl (a0 ++ [KText (t ++ ws ++ u)] ++ b0)
+    = render acc o sl (a0 ++ [KText t]) ++ ws ++ render acc o sl (KText u :: b0).
   Proof.
     intros Ht Hu. rewrite app_assoc, render_app.
     assert (J : junction sl (a0 ++ [KText (t ++ ws ++ u)]) b0 = []).
@@ -195,8 +196,8 @@ Section Compose.
       newline joins the text after *)
   Theorem compositional_par_text sl a0 t pre tail u b0 :
     text_kept sl t -> text_kept sl u ->
-    render o sl ((a0 ++ [KText (t ++ pre)]) ++ [KPar] ++ (KText (tail ++ u) :: b0))
-    = render o sl (a0 ++ [KText t]) ++ pre ++ [10; 10]%N ++ tail ++ render o sl (KText u :: b0).
+    render acc o sl ((a0 ++ [KText (t ++ pre)]) ++ [KPar] ++ (KText (tail ++ u) :: b0))
+    = render acc o sl (a0 ++ [KText t]) ++ pre ++ [10; 10]%N ++ tail ++ render acc o sl (KText u :: b0).
   Proof.
     intros Ht Hu. rewrite compositional_par, render_text_end, render_text_start by assumption.
     now rewrite <- !app_assoc.
@@ -211,6 +212,7 @@ Section ModelCompose.
   Variable o : opts.
   Notation nt := (node_text src lt cx o).
   Notation absl := (abstract_items src lt).
+  Notation acc := (nfc_accent lt).
 
   Lemma abstract_items_app na nb :
     absl (na ++ nb) = match absl na, absl nb with Some a, Some b => Some (a ++ b) | _, _ => None end.
@@ -225,7 +227,7 @@ Section ModelCompose.
   (** the text of a core node list *)
   Definition text_of (sl : sls) (l : list (option node)) : str := fst (nt sl d0 (NList None None l)).
 
-  Lemma text_of_core sl l ks : absl l = Some ks -> text_of sl l = render o sl ks.
+  Lemma text_of_core sl l ks : absl l = Some ks -> text_of sl l = render acc o sl ks.
   Proof. intros H. unfold text_of. now rewrite (tree_level src lt cx o l ks H). Qed.
 
   Theorem model_compositional_par sl st p e na nb a b par :
@@ -258,27 +260,30 @@ Section ModelCompose.
 End ModelCompose.
 
 (** * The documented rules, read off the specification *)
-Theorem render_rules (o : opts) (sl : sls) :
+Theorem render_rules (acc : N -> N -> str) (o : opts) (sl : sls) :
   (* text is copied; whitespace-only text is dropped unless strict between-latex-constructs *)
-  (forall c, is_blank c = false -> render1 o sl (KText c) = c)
-  /\ (forall c, is_blank c = true -> render1 o sl (KText c) = if s_blc sl then c else [])
+  (forall c, is_blank c = false -> render1 acc o sl (KText c) = c)
+  /\ (forall c, is_blank c = true -> render1 acc o sl (KText c) = if s_blc sl then c else [])
   (* comments vanish, leaving their post-space unless strict after-comment *)
-  /\ (forall c p, o_keep_comments o = false -> render1 o sl (KComment c p) = if s_ac sl then [] else p)
+  /\ (forall c p, o_keep_comments o = false -> render1 acc o sl (KComment c p) = if s_ac sl then [] else p)
   (* groups and formatting macros are transparent *)
-  /\ (forall b, o_kbg o = false -> render1 o sl (KGroup b) = render o sl b)
-  /\ (forall b, render1 o sl (KTransparent b) = render o sl b)
-  /\ (forall b, render1 o sl (KEnvBody b) = render o sl b)
-  /\ (forall pre post b, render1 o sl (KEnvWrap pre post b) = pre ++ render o sl b ++ post)
+  /\ (forall b, o_kbg o = false -> render1 acc o sl (KGroup b) = render acc o sl b)
+  /\ (forall b, render1 acc o sl (KTransparent b) = render acc o sl b)
+  /\ (forall b, render1 acc o sl (KEnvBody b) = render acc o sl b)
+  /\ (forall pre post b, render1 acc o sl (KEnvWrap pre post b) = pre ++ render acc o sl b ++ post)
   (* symbols and specials become their replacement *)
-  /\ (forall r p, render1 o sl (KSymbol r p) = r) /\ (forall r, render1 o sl (KSpecials r) = r)
+  /\ (forall r p, render1 acc o sl (KSymbol r p) = r) /\ (forall r, render1 acc o sl (KSpecials r) = r)
+  (* accents: every character of the stripped argument text gets the combining mark *)
+  /\ (forall comb k, render1 acc o sl (KAccent comb k)
+                     = flat_map (fun ch => acc ch comb) (py_strip (render1 acc o sl k)))
   (* inline math is inlined, display math is an indented block, under the in-equations policy *)
   /\ (forall dl dr v b, o_math o = MMText ->
-        render1 o sl (KMath false dl dr v b) = py_strip (render o (push_eq sl) b)
-        /\ render1 o sl (KMath true dl dr v b) = indent_block (py_strip (render o (push_eq sl) b)))
+        render1 acc o sl (KMath false dl dr v b) = py_strip (render acc o (push_eq sl) b)
+        /\ render1 acc o sl (KMath true dl dr v b) = indent_block (py_strip (render acc o (push_eq sl) b)))
   (* the post-space of a bare symbol macro goes in front of following text unless strict between-macro-and-chars *)
-  /\ (forall r p c k, render o sl [KSymbol r p; KText c]
-                      = r ++ (if s_bmc sl then [] else p) ++ render1 o sl (KText c)
-                      /\ (is_text k = false -> render o sl [KSymbol r p; k] = r ++ render1 o sl k)).
+  /\ (forall r p c k, render acc o sl [KSymbol r p; KText c]
+                      = r ++ (if s_bmc sl then [] else p) ++ render1 acc o sl (KText c)
+                      /\ (is_text k = false -> render acc o sl [KSymbol r p; k] = r ++ render1 acc o sl k)).
 Proof.
   repeat split; intros.
   - cbn [render1]. now rewrite H, andb_false_r.
